@@ -755,3 +755,10 @@ PROPERTIES["C15"]["mirsym"].append(
 PROPERTIES["C15"]["manifest"]["text"] += " Second kernel, the socket core's LINGER decision: done as soon as every socket-to-session pipe is empty; with LINGER -1 never while a message is queued; with LINGER 0 at once; with a positive LINGER exactly when (start of lingering + LINGER) has passed on the clock - for every LINGER value and every clock, also when the periodic check re-enters start_linger_if_needed."
 PROPERTIES["C15"]["manifest"]["note"] = PROPERTIES["C15"]["manifest"]["note"].replace("the socket core's linger timer and deadline, LINGER=0 returning promptly, bounded duration of close/term", "that the core's loop evaluates the decision often enough and then actually stops the sessions (bounded duration of close/term end to end)")
 PROPERTIES["C15"]["outside"] = "end-to-end duration of close/term, kernel buffers, inproc, handle drop"
+PROPERTIES["C16"]["mirsym"].append(
+    M("c16_shutdown_bookkeeping", "d_c16", "shutdown_bookkeeping",
+      {"quick": "ShutdownCoordinator::{begin_shutdown_sequence, record_child_actor_stopped, record_connection_closed} over 0..2 endpoints (listener with a task, listener without, session) and all sequences of 3 stop reports (any tracked id or an untracked one, reported as listener or as connection)",
+       "thorough": "0..3 endpoints, 4 reports"},
+      params={"quick": {"max_endpoints": 2, "reports": 3}, "thorough": {"max_endpoints": 3, "reports": 4}}, budget={"quick": 300, "thorough": 1500},
+      required_covers=["c16.bookkeeping.completed", "c16.bookkeeping.nothing-to-wait-for"]))
+PROPERTIES["C16"]["manifest"]["text"] += " The socket core's shutdown bookkeeping waits for exactly the running listeners and sessions: the stop report that empties both lists, and only that one, completes the phase; untracked or repeated reports change nothing."
